@@ -1100,10 +1100,12 @@ func authDriver(env *Env) error {
 					had := sid != "" && id != "" && served(sid, "10.0.0.7:1")
 					if sc.Which == "unknown" {
 						id = id + "999"
+					} else if sc.Which == "prefix" && len(id) > 1 {
+						id = id[:len(id)-1]
 					}
 					ret := e.sm.CtrlKickSession(base.ApiCtrlKickSessionReq{StreamName: authStream, SessionId: id})
 					wait := 3000
-					if sc.Which == "unknown" {
+					if sc.Which != "real" {
 						wait = 30
 					}
 					closed := false
@@ -1130,10 +1132,15 @@ func authDriver(env *Env) error {
 			id := o.id
 			if sc.Which == "unknown" {
 				id = id + "999"
+			} else if sc.Which == "prefix" && len(id) > 1 {
+				// names no session, unless it happens to be the peer's id: then an id that names nobody
+				if id = id[:len(id)-1]; sc.Peers > 0 && id == peer.id {
+					id = id + "x"
+				}
 			}
 			ret := e.sm.CtrlKickSession(base.ApiCtrlKickSessionReq{StreamName: authStream, SessionId: id})
 			wait := 3000
-			if sc.Which == "unknown" {
+			if sc.Which != "real" {
 				wait = 30
 			}
 			closed := pollUntil(wait, o.isClosed)
@@ -1157,9 +1164,17 @@ func authDriver(env *Env) error {
 				if sc.Fam == "v6" {
 					ips = map[string]string{"a": "fd00::1", "b": "fd00::2", "c": "fd00::3"}
 				}
+				listed := map[string]string{"a": ips["a"], "c": ips["c"]}
+				switch sc.Fam {
+				case "v6x":
+					ips = map[string]string{"a": "fd00::1", "b": "fd00::2", "c": "fd00::3"}
+					listed = map[string]string{"a": "fd00:0:0:0:0:0:0:1", "c": "FD00:0000:0000:0000:0000:0000:0000:0003"}
+				case "v4m":
+					listed = map[string]string{"a": "::ffff:10.1.0.1", "c": "::ffff:a01:3"}
+				}
 				t0 := time.Now()
-				e.sm.CtrlAddIpBlacklist(base.ApiCtrlAddIpBlacklistReq{Ip: ips["a"], DurationSec: sc.Dur})
-				e.sm.CtrlAddIpBlacklist(base.ApiCtrlAddIpBlacklistReq{Ip: ips["c"], DurationSec: sc.Dur + 5})
+				e.sm.CtrlAddIpBlacklist(base.ApiCtrlAddIpBlacklistReq{Ip: listed["a"], DurationSec: sc.Dur})
+				e.sm.CtrlAddIpBlacklist(base.ApiCtrlAddIpBlacklistReq{Ip: listed["c"], DurationSec: sc.Dur + 5})
 				paths := []string{"/hls/" + authStream + ".m3u8", "/hls/" + authStream + "/playlist.m3u8", "/hls/" + authStream + "/record.m3u8",
 					"/hls/" + authStream + "-1-0.ts", "/hls/" + authStream + "/" + authStream + "-1-0.ts"}
 				probes := []M{}
